@@ -158,6 +158,7 @@ def check(run):
     rd = ix.method(cls, "redirect")
     refusal = [n for n in walk_local(rd.node) if isinstance(n, ast.If) and "'https'" in unparse(n.test) and n.body and isinstance(n.body[-1], ast.Raise)]
     ok = False
+    newscheme = set()
     if refusal:
         r = refusal[0]
         # the new scheme is whichever local is bound from `<urlsplit result>.scheme`
@@ -172,6 +173,20 @@ def check(run):
         ok = ok and all(c.lineno > r.end_lineno for c in closes + newc) and bool(closes) and bool(newc)
     run.ob("C19.R5", "%s:https-to-http-refused-before-switch" % rd.fq, ok, run.site(rd, refusal[0]) if refusal else run.site(rd),
            "" if ok else "the https->http refusal must dominate closing the connector and constructing a plain tcp.Client")
+    # the refusal reads self.requester.scheme, so the requester must follow the connector: when redirect() switches the connector it
+    # re-initialises the requester with the new location's hostname, port AND scheme (otherwise http -> https -> http is not refused)
+    reinits = [n for n in walk_local(rd.node) if isinstance(n, ast.Call) and method_call(n) == ("self.requester", "reinit")]
+    swaps = [n for n in walk_local(rd.node) if isinstance(n, ast.Assign) and dotted(n.targets[0]) == "self.connector"]
+    ok = False
+    why = "redirect() replaces the connector without re-initialising the requester"
+    if reinits and swaps and refusal:
+        kws = {k.arg: dotted(k.value) for k in reinits[0].keywords}
+        missing = [k for k in ("hostname", "port", "scheme") if k not in kws]
+        ok = not missing and kws.get("scheme") in newscheme and reinits[0].lineno > swaps[0].lineno
+        why = "after switching the connector redirect() calls `%s`: %s is not updated, so the https->http refusal (which reads " \
+              "self.requester.scheme) and the Host header of the redirected request use the previous location's value" % (
+                  unparse(reinits[0]).replace("\n", " "), ", ".join(missing) or "scheme (not the new location's scheme)")
+    run.ob("C19.R5", "%s:requester-follows-connector" % rd.fq, ok, run.site(rd, reinits[0]) if reinits else run.site(rd), "" if ok else why)
     bad = [n for n in walk_local(rd.node) if (isinstance(n, ast.Call) and method_call(n) == ("self.responses", "append")) or
            (isinstance(n, ast.Assign) and dotted(n.targets[0]) == "self.waited" and getattr(n.value, "value", 1) is False)]
     run.ob("C19.R5", "%s:redirect-path-keeps-waiting" % rd.fq, not bad, run.site(rd), "" if not bad else "redirect() appends a response or clears waited: the redirected request would be answered twice")
@@ -182,10 +197,11 @@ def check(run):
     call = [n for n in walk_local(sresp.node) if isinstance(n, ast.Call) and is_self_call(n, "redirect")]
     ok = bool(call) and any("redirectant" in g for g in guards(call[0], sresp))
     run.ob("C19.R5", "%s:redirect-only-when-redirectant" % sresp.fq, ok, run.site(sresp), "" if ok else "redirect() must be called only for redirect responses")
-    run.floor("C19.R5", 4)
+    run.floor("C19.R5", 5)
 
 
 MUTANTS = [
+    Mutant("redirect-requester-keeps-old-scheme", HC, "Client.redirect", "                                      port=port,\n                                      scheme=scheme)", "                                      port=port)", {"C19.R5"}),
     Mutant("servicerequests-no-waited-test", HC, "Client.serviceRequests", "        if not self.waited:\n            if self.requests:", "        if True:\n            if self.requests:", {"C19.R1"}, canary=True),
     Mutant("transmit-no-waited", HC, "Client.transmit", "        self.waited = True\n", "", {"C19.R2"}, canary=True),
     Mutant("transmit-waited-after-tx", HC, "Client.transmit", "        self.waited = True\n", "        pass\n", {"C19.R2"}),
